@@ -1,0 +1,7 @@
+//go:build !verif
+
+package pipeline
+
+// verifGate is a schedule hook used by the verification harness (build tag
+// `verif`); without the tag it is an empty, inlinable function.
+func verifGate(string) {}
